@@ -612,6 +612,10 @@ func (fr *frame) appendOp(c *ssa.CallCommon, args []TV, resT types.Type, st *Sta
 			s.note("%s: append of %s to []byte abstracted", FuncKey(fr.fn), b.S)
 			return s.freshValue(st, "append", resT)
 		}
+		if a.Lit != nil && b.Lit != nil {
+			lit := *a.Lit + *b.Lit
+			return TV{T: "(mk-bytes false " + s.strConst(lit) + ")", S: "Bytes", GT: resT, Lit: &lit}
+		}
 		t := s.define("cat", "Str", fmt.Sprintf("(sconcat (cont %s) %s)", a.T, bs))
 		s.assume(st, fmt.Sprintf("(= (slen %s) (+ (slen (cont %s)) (slen %s)))", t, a.T, bs))
 		s.assume(st, fmt.Sprintf("(=> (= (slen %s) 0) (= %s (cont %s)))", bs, t, a.T))
